@@ -5,6 +5,17 @@ here=$(cd "$(dirname "$0")" && pwd)
 repo=${VERIF_REPO:-/repo}
 tier=${VERIF_TIER:-quick}
 for a in "$@"; do [ "$a" = "-thorough" ] && tier=thorough; done
+# -input FILE: replay the failing input recorded in a replay file (line FAILING-INPUT: wkt.Unmarshal("..."))
+if [ "$1" = "-input" ]; then
+  VERIF_INPUT=$(python3 - "$2" <<'PY'
+import sys, re, json
+m = re.search(r'FAILING-INPUT: wkt\.Unmarshal\(("(?:[^"\\]|\\.)*")\)', open(sys.argv[1]).read())
+print(json.loads(m.group(1)) if m else "")
+PY
+)
+  export VERIF_INPUT
+  [ -z "$VERIF_INPUT" ] && { echo "no FAILING-INPUT line in $2"; exit 2; }
+fi
 tmp=$(mktemp -d)
 trap 'rm -rf "$tmp"' EXIT
 cp "$here/wkt_tokens_test.go.txt" "$tmp/zz_bounded_test.go"
